@@ -46,23 +46,25 @@ type C07Slot struct {
 }
 
 type C07Case struct {
-	MinGP     string         `json:"min_gas_price"`
-	BaseFee   string         `json:"base_fee"`
-	NoBaseFee bool           `json:"no_base_fee"`
-	Mult      string         `json:"min_gas_multiplier"`
-	Route     string         `json:"route"` // eth-legacy | eth-access | eth-dynamic | cosmos | cosmos-dyn
-	Gas       uint64         `json:"gas"`
-	PriceRef  string         `json:"price_ref"` // floor | base | max | high
-	PriceOff  int64          `json:"price_off"`
-	TipMode   string         `json:"tip_mode"` // zero | one | half | full
-	FeeOff    int64          `json:"fee_off"`  // cosmos: added to the total declared fee
-	Value     string         `json:"value"`
-	Create    bool           `json:"create"`
-	Prog      evmasm.Program `json:"prog"`
-	Pre       []C07Slot      `json:"pre_slots"`
-	NMsgs     int            `json:"n_msgs"`
-	NAccess   int            `json:"n_access"`
-	GasTight  int64          `json:"gas_tight"` // > 0: gas limit = gas the reference EVM consumes before refunds + GasTight - 1
+	MinGP     string `json:"min_gas_price"`
+	BaseFee   string `json:"base_fee"`
+	NoBaseFee bool   `json:"no_base_fee"`
+	Mult      string `json:"min_gas_multiplier"`
+	Route     string `json:"route"` // eth-legacy | eth-access | eth-dynamic | cosmos | cosmos-dyn
+	Gas       uint64 `json:"gas"`
+	PriceRef  string `json:"price_ref"` // floor | base | max | high
+	PriceOff  int64  `json:"price_off"`
+	TipMode   string `json:"tip_mode"` // zero | one | half | full
+	FeeOff    int64  `json:"fee_off"`  // cosmos: added to the total declared fee
+	// FeeAt (cosmos): "" = fee is price x gas; "floor" = fee is the floor itself, ceil(gas x min gas price), before FeeOff
+	FeeAt    string         `json:"fee_at,omitempty"`
+	Value    string         `json:"value"`
+	Create   bool           `json:"create"`
+	Prog     evmasm.Program `json:"prog"`
+	Pre      []C07Slot      `json:"pre_slots"`
+	NMsgs    int            `json:"n_msgs"`
+	NAccess  int            `json:"n_access"`
+	GasTight int64          `json:"gas_tight"` // > 0: gas limit = gas the reference EVM consumes before refunds + GasTight - 1
 }
 
 func genC07Prog(t *rapid.T) (evmasm.Program, []C07Slot) {
@@ -125,6 +127,12 @@ func genC07(t *rapid.T) C07Case {
 	c.PriceOff = rapid.SampledFrom([]int64{-2, -1, 0, 0, 1, 2, 1000}).Draw(t, "priceoff")
 	c.TipMode = rapid.SampledFrom([]string{"zero", "one", "half", "full"}).Draw(t, "tip")
 	c.FeeOff = rapid.SampledFrom([]int64{0, 0, -1, 1}).Draw(t, "feeoff")
+	if c.Route[:3] != "eth" && rapid.IntRange(0, 2).Draw(t, "fee-at-floor") == 0 {
+		// total fee exactly at / one below / one above ceil(gas x min gas price); an odd gas limit makes the product
+		// fractional for the fractional prices
+		c.FeeAt = "floor"
+		c.Gas |= 1
+	}
 	c.Value = rapid.SampledFrom([]string{"0", "0", "1", "1000000000000000000"}).Draw(t, "value")
 	c.NMsgs = rapid.IntRange(1, 3).Draw(t, "nmsgs")
 	c.NAccess = rapid.IntRange(0, 2).Draw(t, "naccess")
@@ -452,6 +460,9 @@ func runC07(st *ev.Stats, c C07Case) string {
 		msgs = append(msgs, banktypes.NewMsgSend(sender.Addr, recv.Addr, sdk.NewCoins(sdk.NewCoin(chain.Denom, sdkmath.NewIntFromBigInt(a)))))
 	}
 	fee := new(big.Int).Mul(price, gasB)
+	if c.FeeAt == "floor" {
+		fee = ceilDiv(new(big.Int).Mul(gasB, minRaw), ten18)
+	}
 	fee.Add(fee, big.NewInt(c.FeeOff))
 	if fee.Sign() < 0 {
 		fee = new(big.Int)
